@@ -16,7 +16,31 @@ def c02_shapes(tier):
                     out.append((n, ring, rn, r_ms, k))
     return out
 
+def c01_shapes(tier):
+    # (nrules, class1, class2, class3, k)
+    if tier == 'quick':
+        return [(1, 0, 0, 0, 3), (1, 3, 0, 0, 2), (1, 6, 0, 0, 2), (2, 0, 7, 0, 2)]
+    out = []
+    for c in range(10):
+        out.append((1, c, 0, 0, 3))
+    for a, b in [(0, 3), (2, 6), (1, 8), (5, 9), (4, 7)]:
+        out.append((2, a, b, 0, 3))
+    out.append((3, 0, 3, 7, 3))
+    out.append((1, 0, 0, 0, 4))
+    return out
+
 PROPS = {
+    'C01': {
+        'level': 'model_checking',
+        'bounds': '1-3 direct/reject rules on one resource, window classes default/reuse(1,4,10,20 buckets)/private(250,700,1500,20000 ms); k<=3 (quick) / <=4 requests; '
+                  't0 in two buckets before the ring wraps, gaps in [0, 2.5*max interval], batch in [0,3], thresholds in halves in [0,4], any open entry may be exited before each request',
+        'assumptions': ['virtual clock (hook) drives curr_time_millis', 'HashMap/HashSet modelled as insertion-ordered maps with run-chosen iteration order',
+                        'f64 values derived from symbolic integers are exact dyadic rationals (side conditions checked), other floats are concrete IEEE doubles'],
+        'scenarios': [
+            {'name': 'c01_flow_reject', 'shapes': {'quick': c01_shapes('quick'), 'thorough': c01_shapes('thorough')},
+             'witnesses': ['admitted', 'rejected'], 'selftest': {'quick': 8, 'thorough': 40}},
+        ],
+    },
     'C02': {
         'level': 'model_checking',
         'bounds': 'ring geometries and read windows enumerated as shapes; k<=3 (quick) / <=5 (thorough) writes then one read; '
